@@ -112,7 +112,12 @@ func (c *ctx) report(oracle, class, format string, a ...any) {
 		return
 	}
 	c.finish()
-	c.k.Violate(c.prop, oracle, class, format, a...)
+	// k.Violate stops the run, unless the class is registered in
+	// known_findings.json with "continue": true (then it is counted in
+	// KnownHits and the run goes on: nothing was mutated by a failed decode).
+	if c.k.Violate(c.prop, oracle, class, format, a...) {
+		c.k.Probe("known-finding-hit:" + class)
+	}
 }
 
 func hx(b []byte) string {
@@ -191,9 +196,9 @@ func classifyPanic(stack string) (inGossamer bool, site string) {
 // for: a buffer preallocated from a declared length) are accounted at once,
 // small objects when their span is swapped, so the value can only lag, never
 // run ahead by more than a span. Stage 2 (only on suspicion): the decode is
-// repeated twice between runtime.ReadMemStats calls (exact TotalAlloc, caches
-// flushed by the stop-the-world); the minimum of the two exact deltas must still
-// exceed the bound. TotalAlloc is cumulative, so the collector running or not
+// repeated between runtime.ReadMemStats calls (exact TotalAlloc, caches flushed
+// by the stop-the-world) and must exceed the bound again; if that exact value is
+// within 2x of the bound it is repeated once more and the smaller value counts. TotalAlloc is cumulative, so the collector running or not
 // makes no difference. Measurements never enter the event log or the tape.
 
 var allocSample = []metrics.Sample{{Name: "/gc/heap/allocs:bytes"}}
@@ -233,7 +238,8 @@ func (c *ctx) measured(inLen int, fn func()) (excess uint64, exact uint64) {
 	// suspicion: repeat with exact numbers; must reproduce.
 	e1 := allocExact(fn)
 	e := e1
-	if e1 > bound && e1 < hugeAlloc {
+	if e1 > bound && e1 < 2*bound {
+		// marginal: take the smaller of two exact measurements
 		if e2 := allocExact(fn); e2 < e {
 			e = e2
 		}
